@@ -15,7 +15,7 @@ import ast
 
 from ..flow import flow_of, path_of
 from ..loader import AnalysisError, dotted, last_name, loc, short, walk_local, enclosing_stmt
-from ..util import CP2K, ENGPARTS, GROMACS, LAMMPS, all_calls, kwarg
+from ..util import CP2K, ENGPARTS, GROMACS, LAMMPS, all_calls, kwarg, oriented
 from ..variants import B, K
 
 EXPLANATION = (
@@ -195,10 +195,12 @@ def text_reader(ctx, f):
         complete = False
         resync = False
         for e, truth, bn in facts:
-            if truth and isinstance(e, ast.Compare) and isinstance(e.left, ast.BinOp) and isinstance(e.left.op, ast.Mod) and isinstance(e.ops[0], ast.Eq):
-                if idx is None or _mentions(e.left.left, {idx}):
+            o = oriented(e, lambda x: isinstance(x, ast.BinOp) and isinstance(x.op, ast.Mod)) if truth else None
+            if o is not None and isinstance(o[1], ast.Eq):
+                if idx is None or _mentions(o[0].left, {idx}):
                     complete = True
-            if truth and isinstance(e, ast.Compare) and path_of(e.left) == line and isinstance(e.comparators[0], ast.Constant) and e.comparators[0].value == "\n":
+            o2 = oriented(e, lambda x: path_of(x) == line) if truth else None
+            if o2 is not None and isinstance(o2[2], ast.Constant) and o2[2].value == "\n":
                 resync = True
         if complete:
             ctx.ok("R-13.2", d.stmt, f"{name}: position committed only under the frame-complete condition")
@@ -234,15 +236,20 @@ def trr_reader(ctx):
     for r in reads:
         n = cfg.node_of(r)
         guard = None
-        for e, truth, bn in cfg.guards(n):
-            if not truth or not isinstance(e, ast.Compare) or len(e.ops) != 1:
+        for e0, truth, bn in cfg.guards(n):
+            if not truth:
                 continue
-            if not isinstance(e.ops[0], (ast.GtE, ast.Gt)):
+            # orient as  <size> >= <bytes_read + needed>  however the test is written
+            o = oriented(e0, lambda x: not ("self.bytes_read" in ast.unparse(x)))
+            if o is None or not isinstance(o[1], (ast.GtE, ast.Gt)):
                 continue
-            rhs = e.comparators[0]
+            rhs = o[2]
             if "self.bytes_read" not in ast.unparse(rhs) or not isinstance(rhs, ast.BinOp) or not isinstance(rhs.op, ast.Add):
                 continue
-            lsrc = fl.sources(e.left, [x for x in cfg.nodes if x.kind == "test" and x.ast is bn.ast][0])
+            e = ast.Compare(left=o[0], ops=[o[1]], comparators=[o[2]])
+            ast.copy_location(e, e0)
+            e._parent = getattr(e0, "_parent", None)
+            lsrc = fl.sources(o[0], [x for x in cfg.nodes if x.kind == "test" and x.ast is bn.ast][0])
             if all(k == "expr" and isinstance(nn, ast.Call) and dotted(nn.func) == "os.path.getsize" for k, nn, _, _ in lsrc):
                 guard = (e, bn, lsrc)
         if guard is None:
